@@ -183,7 +183,13 @@ class ConfigTargetVisibility(object):
             def invert_first_arg(_tuple):
                 return (not _tuple[0], _tuple[1])
 
-            (visib, source) = self._visible(node.parent) if node.parent else (True, None)
+            # A symbol parent (implicit submenu created from dependencies, or a menuconfig symbol) gates its children
+            # only through their own dependencies, which are folded below. Whether its own prompt is reachable says
+            # nothing about its value (it may be selected), so continue with the closest non-symbol ancestor.
+            parent = node.parent
+            while parent is not None and type(parent.item) is kconfiglib.Symbol:
+                parent = parent.parent
+            (visib, source) = self._visible(parent) if parent else (True, None)
 
             if visib:
                 (visib, source) = invert_first_arg(self._implies_invisibility(dependencies))
@@ -227,12 +233,12 @@ def node_is_menu(node):
         return False  # not all MenuNodes have is_menuconfig for some reason
 
 
-def get_breadcrumbs(node):
+def get_breadcrumbs(node, visibility=None):
     # this is a bit wasteful as it recalculates each time, but still...
     result = []
     node = node.parent
     while node.parent:
-        if node.prompt:
+        if node.prompt and (visibility is None or visibility.visible(node)):
             result = [f":ref:`{get_link_anchor(node)}`"] + result
         node = node.parent
     return " > ".join(result)
@@ -673,7 +679,7 @@ def write_menu_item(f, node, visibility, kconfig, reverse_deps):
 
     if name:
         f.write(f"{INDENT}{node.prompt[0]}\n\n")
-        f.write(f"{INDENT}:emphasis:`Found in:` {get_breadcrumbs(node)}\n\n")
+        f.write(f"{INDENT}:emphasis:`Found in:` {get_breadcrumbs(node, visibility)}\n\n")
 
     try:
         if node.help:
